@@ -34,6 +34,10 @@ if os.environ.get("DEMO_APPEND_MOD"):
     place = ("append-mod", os.environ["DEMO_APPEND_MOD"])
     pkg = "bevy_replicon_example_backend" if place[1].startswith("bevy_replicon_example_backend/") else "bevy_replicon"
     test_cmd = f"cargo test --offline -p {pkg} --lib {os.environ.get('DEMO_FILTER', '')}"
+elif os.environ.get("DEMO_FILE"):
+    place = ("file", os.environ["DEMO_FILE"])
+    pkg = "bevy_replicon"
+    test_cmd = f"cargo test --offline -p {pkg} --test {Path(place[1]).stem}"
 elif m:
     place = ("file", m.group(1))
     pkg = "bevy_replicon_example_backend" if m.group(1).startswith("bevy_replicon_example_backend/") else "bevy_replicon"
